@@ -37,6 +37,7 @@ type completeCtx struct {
 	memo  map[*ast.FuncLit]bool
 	why   string
 	depth int
+	decl  *ast.FuncDecl // enclosing declaration (resolves call-backs bound to a local)
 }
 
 // findLit unwraps conversions like fp.RunnableFunc(func(){...}).
@@ -79,18 +80,76 @@ func (cx *completeCtx) completingCall(call *ast.CallExpr) bool {
 	switch sel.Sel.Name {
 	case "OnComplete":
 		if tv, ok := cx.info.Types[sel.X]; ok && isNamed(tv.Type, "fp", "Future") && len(call.Args) >= 1 {
-			if fl := findLit(call.Args[0]); fl != nil {
-				return cx.litCompletes(fl)
-			}
+			return cx.callbackCompletes(call.Args[0])
 		}
 	case "ExecuteUnsafe":
 		if len(call.Args) == 1 {
-			if fl := findLit(call.Args[0]); fl != nil {
-				return cx.litCompletes(fl)
-			}
+			return cx.callbackCompletes(call.Args[0])
 		}
 	}
 	return false
+}
+
+// callbackCompletes: the registered call-back is a literal (possibly under a conversion, or bound once to a local) every
+// path of which completes np, or the result of a module helper `mk(np, …)` whose single return is such a literal over
+// the parameter np is passed as.
+func (cx *completeCtx) callbackCompletes(arg ast.Expr) bool {
+	if fl := findLit(arg); fl != nil {
+		return cx.litCompletes(fl)
+	}
+	if id, ok := ast.Unparen(arg).(*ast.Ident); ok {
+		if fl := resolveLit(cx.info, cx.decl, id); fl != nil {
+			return cx.litCompletes(fl)
+		}
+		return false
+	}
+	call, ok := ast.Unparen(arg).(*ast.CallExpr)
+	if !ok || cx.depth >= 3 {
+		return false
+	}
+	fn := calleeOf(cx.info, call)
+	if fn == nil || fn.Pkg() == nil || !strings.HasPrefix(fn.Pkg().Path(), core.ModPath) {
+		return false
+	}
+	fd := cx.c.FuncDecl(fn.Origin())
+	hp := cx.c.ByPath[fn.Pkg().Path()]
+	if fd == nil || fd.Body == nil || fd.Recv != nil || hp == nil {
+		return false
+	}
+	// which parameter receives np
+	var param types.Object
+	idx := 0
+	for _, f := range fd.Type.Params.List {
+		for _, nm := range f.Names {
+			if idx < len(call.Args) && objOf(cx.info, call.Args[idx]) == cx.np {
+				param = hp.TypesInfo.Defs[nm]
+			}
+			idx++
+		}
+	}
+	if param == nil {
+		return false
+	}
+	// single return of a literal
+	var rets []*ast.ReturnStmt
+	ast.Inspect(fd.Body, func(x ast.Node) bool {
+		if _, ok := x.(*ast.FuncLit); ok {
+			return false
+		}
+		if r, ok := x.(*ast.ReturnStmt); ok {
+			rets = append(rets, r)
+		}
+		return true
+	})
+	if len(rets) != 1 || len(rets[0].Results) != 1 {
+		return false
+	}
+	fl := resolveLit(hp.TypesInfo, fd, rets[0].Results[0])
+	if fl == nil {
+		return false
+	}
+	sub := &completeCtx{c: cx.c, info: hp.TypesInfo, np: param, memo: map[*ast.FuncLit]bool{}, depth: cx.depth + 1, decl: fd}
+	return sub.litCompletes(fl)
 }
 
 func (cx *completeCtx) litCompletes(fl *ast.FuncLit) bool {
@@ -216,7 +275,7 @@ func Complete(c *core.Ctx, rule string, pkgs []*packages.Package) {
 				continue
 			}
 			n++
-			cx := &completeCtx{c: c, fb: fb, info: info, np: np, memo: map[*ast.FuncLit]bool{}}
+			cx := &completeCtx{c: c, fb: fb, info: info, np: np, memo: map[*ast.FuncLit]bool{}, decl: fb.Decl}
 			if cx.bodyCompletes(fb.Body) {
 				c.Add(rule, key, poss[i], core.Discharged, "completed on every path of the call-back chain")
 			} else {
